@@ -105,7 +105,7 @@ def run_case(col, r, idx):
                     wit['after'] = common.store_text(f.token_store)
                     col.violation(f'wrong-child-affected:{op.kind}', f'{op.desc}: the call changed another element than the one it addresses ({msg})', wit)
                     return
-            if items_before is not None:
+            if items_before is not None and not op.kind.endswith(':assign'):     # a whole-list assignment brings its own gaps along
                 try:
                     items_after = list(getattr(op.parent, op.list_attr))
                     gaps_after = confine.gaps(f, items_after)
